@@ -138,6 +138,7 @@ class Gen:
     def __init__(self, draw, version='31', max_depth=3, reuse=False):
         self.draw, self.v, self.max_depth, self.reuse = draw, version, max_depth, reuse
         self.nvar = 0
+        self.banned = []        # names that must not occur at all in the range expression being generated
 
     def k(self, n=99):
         return self.draw(_upto(n))
@@ -146,7 +147,9 @@ class Gen:
         """a variable name; in reuse mode names come from a two-name pool, so that nested for/some/every/let
         re-bind a name that is already bound (the outer binding must be back after the inner binder)"""
         if self.reuse:
-            return _sf(self.draw, ['x', 'x', 'y'])
+            pool = [n for n in ('x', 'x', 'y') if n not in self.banned]
+            if pool:
+                return _sf(self.draw, pool)
         self.nvar += 1
         return 'v%d' % self.nvar
 
@@ -240,9 +243,11 @@ class Gen:
         for _ in range(n):
             fl = _sf(self.draw, flavors or 'iiinsm')
             nm = self.fresh()
-            # the range expression never refers to the name it binds: elementpath rejects that statically even when
-            # an outer variable of that name is in scope (known finding C08/range-uses-rebound-name, pinned by tests)
+            # the range expression never mentions the name it binds (neither an outer variable of that name nor an
+            # inner binder): elementpath rejects that statically (known finding C08/range-mentions-own-name, pinned by tests)
+            self.banned.append(nm)
             e = self.seq(fl, d + 1, (self.hide(vars_, nm), focus))
+            self.banned.pop()
             out.append([nm, e])
             vars_ = vars_ + ((nm, 'item', fl),)
         return out, (vars_, focus)
@@ -437,6 +442,9 @@ def direct_calls(draw, version):
         ['for', [['x', S]], ['seq', X, ['filter', T, [q2, [['x', ['ctx']]], c('exists', X)]], X]],
         [q1, [['x', S]], ['and', c('exists', ['for', [['x', T]], X]), inS(X)]],
         ['for', [['x', S]], ['for', [['x', ['seq', X, T]]], X]],      # legal XPath; known finding (rejected statically)
+        # a later clause shadows an outer variable that an earlier clause reads (re-evaluated per outer iteration)
+        ['for', [['y', S]], ['for', [['a', ['seq', ['int', 1], ['int', 1]]], ['b', Y], ['y', T]], ['seq', ['var', 'b'], Y]]],
+        ['for', [['y', S]], [q2, [['a', ['seq', ['int', 1], ['int', 2]]], ['b', ['seq', Y, Y]], ['y', T]], inS(['var', 'b'])]],
     ]
     if version != '20':
         out += [
